@@ -293,3 +293,20 @@ pub proof fn lemma_alt_reads_lower_only<'s>(bs: BoundSet, tail: Seq<char>, i: &'
         _ => {},
     }
 }
+// the printed two-sided form is the two-comparator text (pure sequence algebra, kept apart: inside the shape lemma it is what exhausts the solver)
+pub proof fn lemma_pair_text_is_two_text(op1: Operation, v: Version, sp2: Seq<char>, op2: Operation, w: Version, tail: Seq<char>)
+    requires sp2 == ch1(' ') + op_text(op2),
+    ensures pair_text(op_text(op1), v, sp2, w) + tail == two_text(op1, v, op2, w, tail),
+{
+    assert(pair_text(op_text(op1), v, sp2, w) + tail =~= two_text(op1, v, op2, w, tail));
+}
+pub proof fn lemma_alt_reads_ge_lt<'s>(v: Version, w: Version, tail: Seq<char>, i: &'s str, o: Vec<BoundSet>, rest: &'s str)
+    requires wf_version(v), wf_version(w), ends_alternative(tail), i@ == pair_text(">="@, v, " <"@, w) + tail, range_acc(i, o, rest),
+    ensures rest@ == tail,
+        forall|x: VKey| #![trigger any_within(o@, o@.len() as int, x)] any_within(o@, o@.len() as int, x) <==> (kcmp(key(v), x) != Ordering::Greater && kcmp(x, key(w)) == Ordering::Less),
+{
+    reveal_strlit(">="); reveal_strlit("<"); reveal_strlit(" <");
+    assert(" <"@ =~= ch1(' ') + op_text(Operation::LessThan));
+    lemma_pair_text_is_two_text(Operation::GreaterThanEquals, v, " <"@, Operation::LessThan, w, tail);
+    lemma_alt_reads_two(Operation::GreaterThanEquals, v, Operation::LessThan, w, tail, i, o, rest);
+}
